@@ -1,10 +1,12 @@
 package hx
 
 import (
+	"bytes"
 	"fmt"
 	"time"
 
 	"github.com/gebn/bmc/pkg/dcmi"
+	"github.com/gebn/bmc/pkg/iana"
 	"github.com/gebn/bmc/pkg/ipmi"
 	"github.com/google/gopacket"
 	"pgregory.net/rapid"
@@ -382,8 +384,40 @@ func withRemake(mk func() *Call) *Call {
 }
 
 // CatalogueEntry returns the named entry.
+// RawEntries are harness-defined commands (the library's extension point:
+// any ipmi.Command) for operations the library has no layer for; their
+// response layer takes the body as it comes.
+func RawEntries() []Entry {
+	mk := func(name string, nf ipmi.NetworkFunction, cmd byte, enterprise uint32) Entry {
+		return Entry{Name: name, Prepare: func(t *rapid.T, b *simbmc.BMC) *Call {
+			body := rapid.SliceOfN(rapid.Byte(), 1, 6).Draw(t, "rawBody")
+			if b.RawBodies == nil {
+				b.RawBodies = map[uint16][]byte{}
+			}
+			b.RawBodies[key(byte(nf), cmd)] = body
+			b.Fallback = simbmc.RawFallback
+			return withRemake(func() *Call {
+				op := ipmi.Operation{Function: nf, Command: ipmi.CommandNumber(cmd), Enterprise: iana.Enterprise(enterprise)}
+				c, got := RawCommand(name, op, 0, nil)
+				return &Call{Name: name, Key: key(byte(nf), cmd), Cmd: c, WantFields: map[string]uint64{}, HasBody: true,
+					Check: func() error {
+						if !bytes.Equal(got(), body) {
+							return fmt.Errorf("raw response body: got %x want %x", got(), body)
+						}
+						return nil
+					}, Summary: func() string { return fmt.Sprintf("%x", got()) }}
+			})
+		}}
+	}
+	return []Entry{
+		mk("RawGetACPIPowerState", ipmi.NetworkFunctionAppReq, 0x07, 0),
+		mk("RawGetSELInfo", ipmi.NetworkFunctionStorageReq, 0x40, 0),
+		mk("RawOEMCommand", ipmi.NetworkFunctionOEMReq, 0x31, 0x2A7C),
+	}
+}
+
 func CatalogueEntry(name string) Entry {
-	for _, e := range Catalogue() {
+	for _, e := range append(Catalogue(), RawEntries()...) {
 		if e.Name == name {
 			return e
 		}
